@@ -120,7 +120,8 @@ def name_class(n):
 
 def needs_quote(n):
     # barewords start with a letter (the tokenizer rejects `_x` and `1x` as symbols): such names are reachable through the quoted selector
-    return n in RESERVED or not n[0].isalpha() or n in ("str", "int", "float", "bool")
+    # ... and a bareword that merely *starts* with true, false or NULL is split by the tokenizer (`env.trueish` does not parse): quoted, too
+    return n in RESERVED or not n[0].isalpha() or n in ("str", "int", "float", "bool") or n.startswith(("true", "false", "NULL"))
 
 
 def generate(rng, tier, idx):
